@@ -15,6 +15,7 @@ def corpus():
 
 def generate(rng, tier):
     yield from R.search_cases(tier)
+    yield from R.scale_cases(tier)
     for _ in range(120 if tier == 'quick' else 12000):
         yield R.gen_case(rng, tier)
 
